@@ -128,7 +128,10 @@ SPECS = {
         "abel.rbasex.rbasex_transform(A.img(17, 21), origin=(8, 9), rmax=7, order=2, weights=A.rand(17, 21, label='weights', lo=0.5, hi=1.5), reg=('diff', 1.0), out='full')",
         "abel.rbasex.rbasex_transform(A.img(21, 21), order=1, odd=True, direction='forward', out='full-unique')",
         "abel.rbasex.rbasex_transform(A.img(21, 21), reg='pos', out='fold')",
-        "abel.rbasex.rbasex_transform(A.img(21, 21), out=None)"]),
+        "abel.rbasex.rbasex_transform(A.img(21, 21), out=None)",
+        # weights that leave a whole ring of radii (4 < r < 7) without data: invalid radii are masked
+        "abel.rbasex.rbasex_transform(A.img(21, 21), weights=A.rand(21, 21, label='weights', lo=0.5, hi=1.5) * "
+        "((np.hypot(*np.mgrid[-10:11, -10:11]) <= 4) | (np.hypot(*np.mgrid[-10:11, -10:11]) >= 7)))"]),
     'abel.rbasex.get_bs_cached': dict(cache_accessor=True, arrays=['valid'], calls=[
         "abel.rbasex.get_bs_cached(10, order=2)",
         "abel.rbasex.get_bs_cached(10, order=2, reg=('L2', 1.0), valid=A.arr([1] * 9 + [0, 1], label='valid', force_dtype=bool))"]),
